@@ -33,7 +33,7 @@ func fresh(x any) bool                           { return true }
 // Compile builds a fresh writer (and a fresh mapper when a source map is requested) per call, configured from the
 // compiler's settings only; it stores nothing in the compiler and writes nothing to the tree (empty modifies clause).
 // Post-processing of the text depends on the pretty-print setting alone -- never on whether a source map is requested.
-//@ func (c *Compiler) Compile
+//@ func (c *Compiler) Compile(program)
 //@   props C14 C06 C08 C01
 //@   requires [program] program != nil
 //@   atcall ast:(*Program).WriteTo [writer.config@C06,C14] arg_cw != nil && fresh(arg_cw) && arg_cw.PrettyPrint == c.prettyPrint && arg_cw.IndentString == c.prettyPrintOptions.IndentString && arg_cw.WriteSemicolons == c.prettyPrintOptions.WriteSemicolons && arg_cw.IndentLevel == 0 && (arg_cw.Mapper != nil) == c.generateSourceMap && ast.WriterEmpty(arg_cw)
@@ -46,18 +46,18 @@ func fresh(x any) bool                           { return true }
 
 // Post-processing of pretty output, as a call-sequence contract: trim the whole text, split it at line breaks, trim
 // trailing spaces (only spaces) of every line in place, join the same lines again. No line is dropped, added or reordered.
-//@ func cleanEmptyLines
+//@ func cleanEmptyLines(code)
 //@   props C06 C14 C11 C15 C07
 //@   loop 1 invariant [frame] len(lines) == atEntry(len(lines))
 //@   loop 1 before [mechanism@C06,C15,C07] fullSeq(evCall("strings.TrimSpace"), evCall("strings.Split")) && callArg[string]("strings.TrimSpace", 0, 0) == code && callArg[string]("strings.Split", 0, 0) == callResult[string]("strings.TrimSpace", 0) && callArg[string]("strings.Split", 0, 1) == "\n"
 //@   loop 1 each [mechanism@C06,C15,C07] fullSeq(evCall("strings.TrimRight")) && callArg[string]("strings.TrimRight", 0, 1) == " " && callArg[string]("strings.TrimRight", 0, 0) == line && lines[i] == callResult[string]("strings.TrimRight", 0)
 //@   ensures [mechanism@C06,C15,C07] fullSeq(evCall("strings.Join")) && callArg[string]("strings.Join", 0, 1) == "\n" && result == callResult[string]("strings.Join", 0) && len(callArg[[]string]("strings.Join", 0, 0)) == len(callResult[[]string]("strings.Split", 0))
 
-//@ func New
+//@ func New()
 //@   props C14
 //@   ensures [fresh@C14] result != nil && fresh(result) && !result.generateSourceMap && !result.prettyPrint
 
-//@ func (c *Compiler) WithSourceMap
+//@ func (c *Compiler) WithSourceMap()
 //@   props C14 C08
 //@   modifies c.generateSourceMap
 //@   ensures [set] c.generateSourceMap && result == c
